@@ -116,7 +116,7 @@ ADDENDA = {
 ADDENDA3 = {
     "C03": "Round 3: the compute / return tables and the builtin call table have one arm per variant (a guarded second arm is a hidden row); read-back threads no mutable state across environments and is followed through a delegating worker; Type::from(&Constant) names the constant's own kind with list / pair components in place.",
     "C04": "Round 3: where the Aiken signature names a concrete list element type, the call arm checks the list's element type (fixed: both multiScalarMul arms accepted an empty list of another type); a semantics-gated argument check precedes every successful return of its arm; one arm per builtin in the call / cost / signature tables; the evaluator section of C10's panic audit is re-run (a builtin never crashes the evaluator).",
-    "C05": "Round 3: every arm of a constructor in Machine::compute (guarded ones included) charges its step; one cost arm per builtin; an evaluation entry point that is given the script's language prices the run with that language's cost model (fixed: eval_version / eval_debug used the V3 model for every version).",
+    "C05": "Round 3: every arm of a constructor in Machine::compute (guarded ones included) charges its step; one cost arm per builtin; an evaluation entry point that is given the script's language prices the run with that language's cost model (fixed: eval_version / eval_debug used the V3 model for every version); the two byte-count -> word-count roundings, partially evaluated from their source on six points, equal max(1, ceil(n/8)) for byte strings and ceil(n/8) for literal size arguments.",
     "C10": "Round 3: where the code generator evaluates user code at compile time, a failing evaluation is not unwrapped, except under a guard that what is evaluated is a constant (1 known finding: a module constant that fails panics the compiler).",
     "C11": "Round 3: in all four directions the binder protocol of a Lambda ends with the removal of the binder it declared (fixed: index -> name conversions left it behind, so an index reaching a sibling lambda's level was bound instead of reported free).",
     "C06": "Round 3: the key under which a generic function's instantiations are compiled gives every UplcType constructor its own suffix and association lists a key apart from plain lists; AirTree::mut_held_types exposes every held type (shared with C01).",
